@@ -22,24 +22,49 @@ func vLimitSetup() *vLimEnv {
 	M := vParam("M", 3)
 	e := &vLimEnv{}
 	capIn := M + 1
-	if vChoose("unbuffered", 2) == 1 {
+	mode := vChoose("arrivals", 3) // 0: all there up-front (buffered), 1: unbuffered with eager writers, 2: arriving in bursts after stalls
+	if mode == 1 {
 		capIn = 0
 	}
 	in := make(chan int, capIn)
 	for i := 0; i < M; i++ {
-		x := vNondetInt("x")
-		e.items = append(e.items, x)
-		if capIn > 0 {
+		e.items = append(e.items, vNondetInt("x"))
+	}
+	switch mode {
+	case 0:
+		for _, x := range e.items {
 			in <- x
-		} else {
+		}
+		close(in)
+	case 1:
+		for _, x := range e.items {
 			vPark(in, x)
 		}
-	}
-	if capIn > 0 {
-		close(in)
-	} else {
 		// the producer closes after its last element was taken
 		vOnBlock(in, func() { close(in) })
+	case 2:
+		// the input runs empty at arbitrary points (the discipline waits - for any length of time, the clock is free to
+		// jump); then the next burst of arbitrary size arrives; after the last element the producer closes
+		fed := 0
+		feed := func() {
+			if fed == M {
+				if vIsClosed(in) {
+					vDecline()
+					return
+				}
+				close(in)
+				return
+			}
+			k := 1 + vChoose("burst", M-fed)
+			for ; k > 0; k-- {
+				in <- e.items[fed]
+				fed++
+			}
+		}
+		if M > 0 && vChoose("some-up-front", 2) == 1 {
+			feed()
+		}
+		vOnBlock(in, feed)
 	}
 	rate := Rate{Interval: time.Duration(vNondetI64("interval")), Quantity: vNondetU64("quantity")}
 	e.t0 = vNow()
